@@ -111,7 +111,7 @@ loop:
 	}
 	if res != nil {
 		o.Sent, o.Recv = res.BytesSent, res.BytesReceived
-		o.SendErr, o.RecvErr = errClass(res.SendError), errClass(res.ReceiveError)
+		o.SendErr, o.RecvErr = errClass(res.SendError), errClassOf(res.ReceiveError, tun.End)
 	}
 	o.Events = log.snapshot()
 	return o, out, ""
@@ -292,7 +292,7 @@ loop:
 	}
 	if res != nil {
 		o.Sent, o.Recv = res.BytesSent, res.BytesReceived
-		o.SendErr, o.RecvErr = errClass(res.SendError), errClass(res.ReceiveError)
+		o.SendErr, o.RecvErr = errClass(res.SendError), errClassOf(res.ReceiveError, c.Tunnel.End)
 	}
 	o.Events = log.snapshot()
 	checkDelivered(out, "vconn", o, got, want, c.Tunnel.End, tail)
